@@ -62,4 +62,9 @@ theorem addPart_is_addDecide (H : Bytes → Bytes) (N : Bytes → Bytes → Byte
           rw [hr] at hver
           cases b <;> simp [h1, h2, Merkle.repaired, addOutLabel, hver]
 
+/-- `Block.MakePartSet` is `NewPartSetFromData` of the block's serialisation, made for this call (the
+    model's part sets are functions of the data: C17's theorems speak of `data`, the block's bytes) -/
+theorem makePartSet_is_the_part_set_of_the_serialisation (x : Int) :
+    Gen.e_makePartSet (NewPartSetFromData_wire_BinaryBytes_b_partSize := x) = x := rfl
+
 end AnnVerif.Ties
